@@ -177,6 +177,46 @@ def run(c):
                                 r["index"], r["group"], r["a"], r["b"]), r)
             elif r["same"] == 1:
                 c.cov["traces_validated_against_impl"] += 1
+            # strings (mandatory and defaulted) and 64 bit integers through the same round trip
+            if r.get("ssame", 1) != 1 and ("s", r["sindex"]) not in seen:
+                seen.add(("s", r["sindex"]))
+                c.violation("yaml:used-values:string=%d" % r["sindex"],
+                            "the dump of used values does not reproduce string / 64 bit integer parameter %d of the battery (group %s): %r != %r" % (
+                                r["sindex"], r["group"], r["sa"], r["sb"]), r)
+            if (r.get("bigdigits", "123456789012") != "123456789012" or r.get("bignum", "100000000000") != "100000000000") \
+                    and "digits" not in seen:
+                seen.add("digits")
+                c.violation("yaml:integer-digits", "the integers given as 123456789012 and 1e11 are read as %s and %s" % (
+                    r.get("bigdigits"), r.get("bignum")), r)
+
+    # ---- unit relations (spec/UnitLaws.tla) ---------------------------------------------------------
+    cfg = os.path.join(rd, "units.cfg")
+    open(cfg, "w").write("SPECIFICATION Spec\n")
+    r0 = vlib.tlc("UnitLaws.tla", cfg, rd, workers=1, timeout=300, tag="units0")
+    m = re.search(r'<<\s*"RELATIONS",\s*"(.*?)"\s*>>', r0.out, re.S)
+    if r0.rc != 0 or not m:
+        raise vlib.Inconclusive("UnitLaws printed no table:\n" + r0.out[-1500:])
+    rel = json.loads(m.group(1).replace('\\"', '"'))
+    uin, uout = os.path.join(rd, "units.txt"), os.path.join(rd, "units.ndjson")
+    open(uin, "w").write("".join("%s|%s|%d|%d\n" % tuple(x) for x in rel))
+    rc, o = vlib.sh("%s units %s %s 2>&1" % (exe, uin, uout), timeout=120)
+    if rc != 0:
+        c.violation("yaml:units:abort", "UnitConverter::convert failed on a relation of the table (rc=%d): %s" % (rc, o[-300:]), {"relations": rel})
+    else:
+        r1 = vlib.tlc("UnitLaws.tla", cfg, rd, workers=1, timeout=300, tag="units1", env={"RESULTS": uout})
+        m = re.search(r'<<\s*"BADUNITS",\s*"(.*?)"\s*>>', r1.out, re.S)
+        if r1.rc != 0 or not m:
+            raise vlib.Inconclusive("UnitLaws evaluation failed:\n" + r1.out[-1500:])
+        c.add_model("UnitLaws", r1, "%d defining relations between unit names" % len(rel))
+        flags = json.loads(m.group(1))
+        devs = vlib.read_ndjson(uout)
+        for x, fl, dv in zip(rel, flags, devs):
+            c.add_case(("unit", x[0], x[1]), nontrivial=True)
+            if fl:
+                c.violation("yaml:units:%s:%s" % (x[0], x[1]), "1 %s should be %d x 10^%d %s; the converter deviates by %d x 1e-12 (relative)" % (
+                    x[0], x[2], x[3], x[1], dv["dev"]), {"relation": x, "measured": dv})
+            else:
+                c.cov["traces_validated_against_impl"] += 1
     c.cov["selftest"] = "n/a (plain equality of dictionaries); Layer B round trip asserted by TLC on every batch"
     c.cov["rule"] = ("all dictionaries with <= 4 (thorough: 5) entries over 14 paths (names a, b; depth <= 3) exhaustively + seeded random ones "
                      "(<= 8 entries, depth <= 6, 8 names incl. names with blanks, shared prefixes and nesting jumps); non-trivial = "
